@@ -6,8 +6,14 @@ real add_to_queue, finalize, validate, mergeable_prs / mergeable_queues) and the
 in-memory repository, compared with an oracle written from the statement (prefix in entry order per
 independent queue, maximality, destinations moved to the queue commit of the newest selected pull
 request, all of them SUCCESSFUL, force merge selects everything).  Labelled bounded.
-Deductive part (real code, any number of versions): merge_queues moves each destination exactly onto the
-FIRST listed entry of its version and nowhere else (contract shared with C01/C03).
+Deductive part (real code): merge_queues (any number of versions) moves each destination exactly onto the
+FIRST listed entry of its version and nowhere else (contract shared with C01/C03);
+QueueCollection._recursive_lookup (2 versions, any number of listed entries per version; the recursive call is
+checked against the same contract and a call-site obligation proves the measure decreases) leaves on every
+version a suffix of its entries whose head is SUCCESSFUL and touches nothing when the head row is green;
+QueueCollection._remove_unmergeable (same instance, while-loop invariant) cuts every version down to exactly
+the suffix that starts at its newest entry of a selected pull request.  What joins these per-function
+contracts into the statement (_extract_pr_ids, the per-merge-path loop of _process) stays with the stand-in.
 Known finding F4: QueueCollection._process over-selects (and then moves a destination onto a non-green
 commit) when a pull request dropped on one merge path was masking a red build on another path.
 """
@@ -259,6 +265,9 @@ META = {
         'scope bound: up to 4 pull requests (quick: 4-PR tuples sampled), up to 3 development versions with optional '
         'stabilization and hotfix branches, 4 build states; non-green states are interchangeable for the code '
         '(checked: it only ever evaluates status != SUCCESSFUL)',
+        'contracts on _recursive_lookup / _remove_unmergeable: instance of 2 versions (entries per version unbounded); '
+        'pull request ids are >= 1 (the code uses 0 for "none failed"); the host answers get_build_status as a function '
+        'of (commit, key) during one evaluation; _extract_pr_ids and the merge-path loop of _process are not under contract',
     ],
     'trusted_base': [],
 }
